@@ -20,7 +20,7 @@ AddrOf(e) == [local |-> e.local, remote |-> e.remote, into |-> e.into, infrom |-
 
 TInit ==
   /\ t0 \in Starts /\ l = t0
-  /\ role = "init" /\ bits = {} /\ result = "none" /\ ncur = "none"
+  /\ role = "init" /\ bits = {} /\ result = "none" /\ ncur = "none" /\ refused = FALSE
   /\ addr = [local |-> "?", remote |-> "?"] /\ estab = [local |-> "none", remote |-> "none"]
   /\ prog = [p \in Procs |-> <<>>] /\ cur = [p \in Procs |-> NoCall] /\ lock = "free" /\ wire = <<>>
   /\ rets = [p \in Procs |-> <<>>]
@@ -37,12 +37,13 @@ TrReset ==
   /\ l = t0 /\ IsEv("reset")
   /\ role' = E.role /\ bits' = ToSet(E.initbits)
   /\ prog' = [p \in Procs |-> ProgOf(E, p)]
-  /\ UNCHANGED <<result, ncur, addr, estab, cur, lock, wire, rets, sv, pvars, cvars, handled, deadline, fvars>>
+  /\ UNCHANGED <<result, ncur, refused, addr, estab, cur, lock, wire, rets, sv, pvars, cvars, handled, deadline, fvars>>
 
 (* ------------------------------- negotiating ---------------------------------- *)
 TrNegotiate == IsEv("negotiate") /\ ToSet(E.bits) = bits /\ NegCall(E.f)
 TrNegRet == IsEv("negret") /\ NegRet(E.f, E.ok, [local |-> E.local, remote |-> E.remote])
 TrFault == IsEv("fault") /\ UNCHANGED vars
+TrRefuse == IsEv("refuse") /\ NegRefuse
 (* NewSession / ReceiveSession returns: the outcome, the state bits and the addresses   *)
 (* the session reports from now on                                                      *)
 TrReturn ==
@@ -52,7 +53,7 @@ TrReturn ==
   /\ (E.ok => E.local = addr.local /\ E.remote = addr.remote)
   /\ addr' = AddrOf(E)
   /\ IF E.ok THEN estab' = AddrOf(E) ELSE UNCHANGED estab
-  /\ UNCHANGED <<role, bits, result, ncur, ovars, pvars, cvars, handled, deadline, fvars>>
+  /\ UNCHANGED <<role, bits, result, ncur, refused, ovars, pvars, cvars, handled, deadline, fvars>>
 
 (* ----------------------------- a failed session ------------------------------- *)
 (* whatever the transmit entry points, UpdateAddr and Close do with it is allowed;   *)
@@ -154,11 +155,11 @@ Inv == /\ X_NoTxBeforeEstablished /\ X_NothingAfterClosingTag /\ X_LateCallsRefu
        /\ X_OwnReplyOnly /\ X_AtMostOneReply /\ X_OutcomeConsistent /\ X_ServeRetBothClosed
        /\ X_RequestOnlyWhenEstablished /\ X_AddrStable /\ X_UpdateAddrRefused
        /\ (X_FailedNeverServed \/ "ServeUnready" \in Dev)
-       /\ X_NoEstablishedAfterFailure
+       /\ X_NoEstablishedAfterFailure /\ X_EstablishedHasAddress
 
 TNext ==
   /\ l < EndOf(t0)
-  /\ \/ TrReset \/ TrNegotiate \/ TrNegRet \/ TrFault \/ TrReturn
+  /\ \/ TrReset \/ TrNegotiate \/ TrNegRet \/ TrFault \/ TrRefuse \/ TrReturn
      \/ TrFCall \/ TrFOther \/ TrFHandler \/ TrFServeRet
      \/ TrCall \/ TrRet \/ TrWrite \/ TrHook \/ TrRegistered \/ TrSent \/ TrWoke \/ TrDeregistered
      \/ TrLookup \/ TrOffer \/ TrHanded \/ TrCtxDone \/ TrResume \/ TrHandler \/ TrPeer \/ TrCancel
@@ -167,6 +168,7 @@ TNext ==
   /\ Inv'
   /\ (l > t0 => bits \subseteq bits' /\ Phase' \in PhaseSucc(Phase))          \* X_BitsMonotone, X_PhaseOrder
   /\ (handled' # handled => "Ready" \in bits \/ "ServeUnready" \in Dev)        \* X_ReadyBeforeHandler
+  /\ (refused /\ ncur # "none" /\ ncur' = "none" => result' = "err")            \* X_RefusalNotReady
 
 TSpec == TInit /\ [][TNext]_tvars
 HW == TLCSet(t0, IF TLCGet(t0) < l THEN l ELSE TLCGet(t0))
